@@ -162,6 +162,5 @@ Proof. exact finish_ends_done. Qed.
 Goal True. idtac "ASSUMPTIONS-OF C04_finish_ends_done". Abort.
 Print Assumptions C04_finish_ends_done.
 Example C04_finish_ends_done_nonvacuous :
-  exists s' evs, finish (unlock_step ex_waiting 1 (mkCmd false 5 0 7 5 0 0 0 0 0 0 None)) = (s', evs)
-                 /\ exists s1 ev1, unlock_step ex_waiting 1 (mkCmd false 5 0 7 5 0 0 0 0 0 0 None) = (s1, ev1, Some (mkWake 5 (Some 1))).
-Proof. do 2 eexists. split; [reflexivity|]. do 2 eexists. vm_compute. reflexivity. Qed.
+  exists s1 ev1, unlock_step ex_waiting 1 (mkCmd false 5 0 7 5 0 0 0 0 0 0 None) = (s1, ev1, Some (mkWake 5 (Some 1))).
+Proof. do 2 eexists. vm_compute. reflexivity. Qed.
